@@ -11,5 +11,5 @@ Theorem get_signature_normalises :
   get_signature (raw_sig c r s) 1 = Ok (der_sig (Z.to_N r) (Z.to_N s)) /\
   (in_window cv (zlen (der_sig (Z.to_N r) (Z.to_N s))) = true ->
    get_signature (der_sig (Z.to_N r) (Z.to_N s)) (-1) = Ok (raw_sig c r s)).
-Proof. intros r s cv c ks HC Hr Hs. destruct (get_signature_raw r s cv c ks HC Hr Hs) as (A & _ & B). split; [exact A|split; [exact B|apply (get_signature_der r s cv c ks HC Hr Hs)]]. Qed.
+Proof. exact get_signature_normalises_lemma. Qed.
 Print Assumptions get_signature_normalises.
